@@ -24,20 +24,21 @@ const verifDir = "/verif"
 const modPath = "github.com/tellor-io/layer"
 
 type Obligation struct {
-	Property string `json:"property"`
-	Name     string `json:"name"`
-	Pkg      string `json:"pkg"`     // directory relative to /repo, e.g. x/oracle/keeper
-	Harness  string `json:"harness"` // function name
-	Tier     string `json:"tier"`    // quick | thorough (thorough-only)
-	Abstract bool   `json:"abstract,omitempty"`
-	MaxPaths int    `json:"max_paths,omitempty"`
-	TimeoutS int    `json:"timeout_s,omitempty"`
-	QueryMs  int    `json:"query_ms,omitempty"`
-	Unwind   int    `json:"unwind,omitempty"`
-	NoNative bool   `json:"no_native,omitempty"` // the harness cannot run natively (stated in desc)
-	Desc     string `json:"desc"`
-	Bounds   string `json:"bounds"`
-	Kernels  []string `json:"kernels"`
+	Property   string   `json:"property"`
+	Name       string   `json:"name"`
+	Pkg        string   `json:"pkg"`     // directory relative to /repo, e.g. x/oracle/keeper
+	Harness    string   `json:"harness"` // function name
+	Tier       string   `json:"tier"`    // quick | thorough (thorough-only)
+	Abstract   bool     `json:"abstract,omitempty"`
+	Concretize bool     `json:"concretize,omitempty"`
+	MaxPaths   int      `json:"max_paths,omitempty"`
+	TimeoutS   int      `json:"timeout_s,omitempty"`
+	QueryMs    int      `json:"query_ms,omitempty"`
+	Unwind     int      `json:"unwind,omitempty"`
+	NoNative   bool     `json:"no_native,omitempty"` // the harness cannot run natively (stated in desc)
+	Desc       string   `json:"desc"`
+	Bounds     string   `json:"bounds"`
+	Kernels    []string `json:"kernels"`
 }
 
 type KnownFinding struct {
@@ -233,11 +234,11 @@ type OblResult struct {
 	SolverErrs  []string
 	Err         string
 	// after native replay
-	Confirmed   []Violation
-	Spurious    []Violation
-	KnownHits   []Violation
-	Validated   int
-	Mismatches  []string
+	Confirmed  []Violation
+	Spurious   []Violation
+	KnownHits  []Violation
+	Validated  int
+	Mismatches []string
 }
 
 func runObligation(l *loaded, ob Obligation, tier int, seed int64, known map[string]bool, verbose bool) *OblResult {
@@ -252,7 +253,7 @@ func runObligation(l *loaded, ob Obligation, tier int, seed int64, known map[str
 		res.Err = "harness not found: " + ob.Harness
 		return res
 	}
-	cfg := Config{Tier: tier, MaxPaths: ob.MaxPaths, QueryTimeout: ob.QueryMs, Abstract: ob.Abstract, Unwind: ob.Unwind, Samples: 4, Seed: seed, Known: known, Verbose: verbose}
+	cfg := Config{Tier: tier, MaxPaths: ob.MaxPaths, QueryTimeout: ob.QueryMs, Abstract: ob.Abstract, Concretize: ob.Concretize, Unwind: ob.Unwind, Samples: 4, Seed: seed, Known: known, Verbose: verbose}
 	to := ob.TimeoutS
 	if to == 0 {
 		to = 300
@@ -762,7 +763,7 @@ func report(prop, tier string, seed int64, results []*OblResult, knownAll map[st
 			"functions_encoded": flist, "queries": totalQueries, "solver": solverVersion(), "solver_s": round2(solverS),
 			"load_ssa_s": round2(loadS), "trusted_base": tb,
 			"explanation": "bounded symbolic execution of the real functions (go/ssa of /repo's working tree, regenerated on this run) with an SMT solver deciding every assertion over all values inside the stated bounds; states = complete symbolic paths explored, transitions = SSA instructions executed symbolically; counterexamples and sampled path models are replayed natively through the same harness with go test -overlay",
-			"exhaustive": false,
+			"exhaustive":  false,
 		},
 		"assumptions": assumptions, "wall_s": round2(wall), "violations": violations,
 	}
